@@ -668,8 +668,6 @@ KNOWN_FEATURES = {
     "F16f_unhashable_internal_arg": lambda sub, r: sub in ("programs", "multi_program") and _has_unhashable_internal_arg(sub, r),
     "F16h_numeric_tuple_to_list": lambda sub, r: sub in ("programs", "multi_program", "args") and _has_numeric_tuple(sub, r),
     "F16i_none_tag_dropped": lambda sub, r: sub in ("programs", "multi_program") and _has_none_tag(sub, r),
-    "F16m_object_tag_reuses_other_kind": lambda sub, r: sub in ("programs", "multi_program") and any(
-        t[0] in ("qobj", "opobj") for t in _all_tag_recipes(r)),
 }
 
 
